@@ -10,7 +10,7 @@ CONSTANTS
   MaxDeletes = 2
   MaxReopens = 0
   MaxPosOps = 2
-  Active = {"r1", "w"}
+  Active = {"r1"}
   Bin = TRUE
   Acts = {"write", "readblock", "delete", "seek", "tell"}
   Defects = {}
